@@ -121,3 +121,120 @@ Definition c01_cs_reply_ok (i : interest) (os : list out) : bool :=
   | [o] => (o_face o =? i_face i) && bytes_eqb (o_tok o) (i_tok i) && is_prefix (i_name i) (o_name o)
   | _ => false
   end.
+
+(* ---- C02: Interests go only to FIB next hops, without loops or duplicate forwarding.
+   All predicates are over the forwarder state before the Interest arrives (FIB, faces, PIT entry of the Interest's
+   aggregation key, dead nonce list) and the Interest itself. *)
+Definition lookup_name (regs : list name) (i : interest) : name :=
+  match select_hint regs (i_hints i) with Some h => h | None => i_name i end.
+
+(* where the Interest may go: the consumer-chosen next hop, else the next hops of the longest-prefix FIB entry for its
+   name or for its forwarding hint outside the producer region *)
+Definition c02_candidates (s : fw) (i : interest) : list nexthop :=
+  match i_nhf i with
+  | Some nh => [(nh, 0)]
+  | None => fib_nexthops (fib s) (lookup_name (regions s) i)
+  end.
+
+Definition c02_entry (s : fw) (i : interest) : option pite :=
+  match find_entry (i_name i) (i_cbp i) (i_mbf i)
+                   (match select_hint (regions s) (i_hints i) with Some h => h | None => [] end) (pit s) with
+  | Some (_, e, _) => Some e
+  | None => None
+  end.
+Definition c02_ins (s : fw) (i : interest) : list inrec := match c02_entry s i with Some e => pe_ins e | None => [] end.
+Definition c02_outs (s : fw) (i : interest) : list outrec := match c02_entry s i with Some e => pe_outs e | None => [] end.
+
+(* not forwarded: unknown arrival face, hop limit zero on arrival, inbound scope violation, no nonce, nonce recorded as
+   dead, nonce equal to that of a pending Interest from another face *)
+Definition c02_must_drop (s : fw) (i : interest) : bool :=
+  match get_face (faces s) (i_face i) with
+  | None => true
+  | Some inf =>
+    match i_hop i with Some 0 => true | _ => false end ||
+    (negb (f_local inf) && spec_localhost (i_name i)) ||
+    match i_nonce i with
+    | None => true
+    | Some x => dnl_has (dnl s) (i_name i) x ||
+                existsb (fun r => negb (ir_face r =? i_face i) && (ir_nonce r =? x)) (c02_ins s i)
+    end
+  end.
+
+(* a usable next hop: the face exists, is not the (non-ad-hoc) arrival face, may carry the hop limit and the scope, and
+   is not a downstream of the same pending Interest (consumer-chosen next hops are not subject to the last rule) *)
+Definition c02_usable (s : fw) (i : interest) (h : nexthop) : bool :=
+  can_send (faces s) (i_face i) (hop_after (i_hop i)) (i_name i) (fst h) &&
+  match i_nhf i with
+  | Some _ => true
+  | None => match get_in (c02_ins s i) (fst h) with None => true | Some _ => fst h =? i_face i end
+  end.
+
+(* inside the suppression interval of an upstream record with another nonce *)
+Definition c02_suppressed (s : fw) (now : N) (i : interest) : bool :=
+  match i_nhf i, i_nonce i with
+  | None, Some x => existsb (fun o => negb (or_nonce o =? x) && (now <? or_at o + suppression)) (c02_outs s i)
+  | _, _ => false
+  end.
+
+Definition is_interest_out (o : out) : bool := match o_kind o with KInterest => true | KData => false end.
+Definition interest_outs (os : list out) : list out := filter is_interest_out os.
+
+(* every forwarded copy: to a candidate next hop, never back to a non-ad-hoc arrival face, same name, hop limit - 1 *)
+Definition c02_out_ok (s : fw) (i : interest) (o : out) : bool :=
+  existsb (fun h => fst h =? o_face o) (c02_candidates s i) &&
+  (negb (o_face o =? i_face i) ||
+   match get_face (faces s) (o_face o) with Some g => is_adhoc (f_link g) | None => false end) &&
+  name_eqb (o_name o) (i_name i) &&
+  match o_hop o, hop_after (i_hop i) with
+  | Some a, Some b => a =? b
+  | None, None => true
+  | _, _ => false
+  end.
+
+Definition c02_outs_ok (s : fw) (i : interest) (os : list out) : bool := forallb (c02_out_ok s i) (interest_outs os).
+
+Definition c02_drop_ok (s : fw) (i : interest) (os : list out) : bool :=
+  if c02_must_drop s i then match os with [] => true | _ => false end else true.
+
+Definition c02_suppress_ok (s : fw) (now : N) (i : interest) (os : list out) : bool :=
+  if c02_suppressed s now i then match interest_outs os with [] => true | _ => false end else true.
+
+(* strategy choice among the usable candidates: best-route sends at most one copy, to a usable next hop of minimal cost;
+   multicast sends to every usable next hop (once each) *)
+Definition c02_strategy_ok (s : fw) (i : interest) (os : list out) : bool :=
+  let usable := filter (c02_usable s i) (c02_candidates s i) in
+  let sent := map o_face (interest_outs os) in
+  match i_nhf i with
+  | Some _ => true
+  | None =>
+    if strat_of (strat s) (i_name i) =? 1
+    then match sent with
+         | [] => true   (* nothing sent at all is judged by c02_forward_ok *)
+         | _ => forallb (fun h => existsb (N.eqb (fst h)) sent) usable &&
+                forallb (fun f => existsb (fun h => fst h =? f) usable) sent
+         end
+    else match sent with
+         | [] => true
+         | [f] => existsb (fun h => (fst h =? f) && (snd h =? min_cost usable)) usable
+         | _ => false
+         end
+  end.
+
+(* content in the cache: the cache is serving, the face has no Interest pending in this PIT entry yet (a retransmission
+   is not looked up again) and a cached Data matches (name, CanBePrefix, MustBeFresh) *)
+Definition c02_cached (s : fw) (now : N) (i : interest) : bool :=
+  cs_serve s && match get_in (c02_ins s i) (i_face i) with Some _ => false | None => true end &&
+  (if i_cbp i then nonempty (cs_prefix_candidates (cs s) now (i_mbf i) (i_name i))
+   else match cs_get (cs s) (i_name i) with Some e => cs_usable now (i_mbf i) e | None => false end).
+
+(* an Interest that is neither dropped, nor for content in the cache, nor suppressed, and has a usable next hop, is forwarded *)
+Definition c02_forward_ok (s : fw) (now : N) (i : interest) (os : list out) : bool :=
+  let usable := filter (c02_usable s i) (c02_candidates s i) in
+  if negb (c02_must_drop s i) && negb (c02_cached s now i) && negb (c02_suppressed s now i) && nonempty usable
+  then nonempty (interest_outs os)
+  else true.
+
+(* no face gets two copies of one Interest *)
+Fixpoint nodupb (l : list N) : bool :=
+  match l with [] => true | x :: r => negb (existsb (N.eqb x) r) && nodupb r end.
+Definition c02_nodup_ok (os : list out) : bool := nodupb (map o_face (interest_outs os)).
